@@ -130,6 +130,9 @@ func c07Run(c *core.Ctx, idx int) {
 			n.NoNest = true // set after the pushes: must not affect elements already present
 		}
 	})
+	if SpiceErrs(uint64(c.Seed), idx, tree) {
+		c.Count("trees.with-left-over-errors")
+	}
 	if sp := core.NewRng(core.Mix(uint64(c.Seed)+0x5b1ce, uint64(idx))); sp.Chance(1, 6) {
 		// (own PRNG stream, so that the rest of the case is what it was without this step)
 		if did := Spice(sp, tree, sp.Chance(1, 2), sp.Chance(1, 2), sp.Chance(1, 2)); did != "" {
